@@ -122,34 +122,6 @@ PROPS = {
                        "c12_skip_bytes_slice, c11_skip_bytes, c11_varint_u64/u32 (reader/slice equivalence of the skip decoders).",
         "not_decided": ["nested containers skipped element-wise end-to-end (composition of the per-kind contracts)", "more than two size-prefixed blocks per skip call"],
     },
-    "C13": {
-        "level": "other",
-        "design_ref": "DESIGN.md §3 C13",
-        "technique": "Kani contract harness on the real record serializer (record()/serialize_record_value/end/Drop) over every presentation of a 3-field record; field_idx (HashMap name table) under an assumed contract",
-        "level_text": "Bounded deductive check, exhaustive at its size by symbolic choice (not sampled): for record {a: long, b: [null,long], c: long} every sequence of up to 3 presented "
-                      "(name, value) pairs over {a,b,c,unknown} - all orders, omissions, duplicates - is run through the real serialize_record_value / end / Drop (field_idx assumed); Ok iff the "
-                      "presentation is valid, bytes equal the schema-order specification encoding (null for omitted b), otherwise Err, never a panic.",
-        "level_note": "One record shape (3 fields, one nullable); field_idx (name -> index through a HashMap) is NOT executed: its contract is assumed and restated in the harness (A2'); "
-                      "values restricted to one-byte varints (value encoding is C02). Nested records/arrays of records and the map presentation are not covered.",
-        "assumptions": [A1, A2, A4, A7, A8],
-        "explanation": "Exhaustive over 4^3 x 4 presentations x symbolic values for the stated record; the in-order fast path, out-of-order buffering, flush of contiguous buffered "
-                       "successors, end() filling of omitted nullable fields and all error exits are on explored paths (cover properties checked each run).",
-        "not_decided": ["records with more than 3 fields, nested out-of-order records sharing the pool, records inside arrays/unions",
-                        "SerializeMap presentation (serialize_key / serialize_value / serialize_entry) funnels into the same functions but is not driven here"],
-    },
-    "C14": {
-        "level": "other",
-        "design_ref": "DESIGN.md §3 C14",
-        "technique": "representation invariant pool_wf (every pooled buffer empty) proved after every explored history of the real record serializer + probe equality on a reused configuration (Kani, bounded histories)",
-        "level_text": "Bounded deductive check: after every presentation explored for C13 (successes and failures at every position) the pooled buffers held by the SerializerConfig are all "
-                      "empty (pool_wf), and an out-of-order probe serialized with the used configuration gives exactly the bytes a fresh configuration gives and trips no internal "
-                      "`is_empty` assertion. Histories of length 1 followed by a probe; pool_wf being re-established after each step is what makes longer histories follow.",
-        "level_note": "Sink I/O errors are not injected (writer is a Vec); the buffered-bytes sequence path (seq_or_tuple.rs) is covered by a separate obligation when present; A1 A2 A4 A8.",
-        "assumptions": [A1, A2, A4, A7, A8],
-        "explanation": "Invariant + frame: the two pool fields are touched only in struct_or_map.rs (record/Drop/end/serialize_record_value) and seq_or_tuple.rs (buffered_bytes/Drop); "
-                       "each record-side site is on an explored path of the harnesses.",
-        "not_decided": ["failure injected by the sink (io::Error after n bytes)", "nested out-of-order records", "histories longer than one serialization + probe are covered only through the invariant argument"],
-    },
     "C15": {
         "level": "proof",
         "design_ref": "DESIGN.md §3 C15",
@@ -217,23 +189,27 @@ PROPS = {
 }
 
 
-PROPS["C19"] = {
-    "level": "other",
-    "design_ref": "DESIGN.md §3 C19",
-    "technique": "Kani contract harness on the real canonical-form writer over all 3-node graphs of unnamed nodes with arbitrary keys; the recursion-unwinding assertion is the termination obligation",
-    "level_text": "Bounded deductive check (labelled bounded): every graph of 3 nodes over {long, array, map, union} with every key assignment - dangling keys, self references, cycles of "
-                  "every shape - is run through the real generic write_canonical_form; it returns Ok exactly when the unfolding from the root is finite and Err otherwise, with Kani's "
-                  "panic / bounds / recursion-unwinding checks as obligations. This is the traversal that freeze() and canonical_form_rabin_fingerprint() run; it is the one that had "
-                  "no guard for unnamed cycles (F4, fixed).",
-    "level_note": "Parsing arbitrary TEXT is serde_json (not applicable); JSON rendering (serialize_to_json) has its own generation-counter guard and goes through serde_json's serializer "
-                  "(not under contract); check_for_cycles is only reachable from the parser. Named nodes (record/enum/fixed) are not in the explored graphs. A1 A4 A8.",
-    "assumptions": [A1, A4, A7, A8],
-    "explanation": "4^3 kind assignments x 4^6 key assignments, explored symbolically (exhaustive at this size). The writer is instantiated with a counting sink so that the CRC table loop "
-                   "does not inflate the unwinding bound; the writer is generic in W and the traversal does not depend on it.",
-    "not_decided": ["arbitrary text input (serde_json)", "serialize_to_json / check_for_cycles traversals", "graphs with named nodes or more than 3 nodes", "'freezing succeeds => safe to use' beyond C10's narrow claim"],
+
+
+PROPS["C06"] = {
+    "level": "proof",
+    "design_ref": "DESIGN.md §3 C06",
+    "technique": "Kani contract harnesses on the container writer's block construction: block header for every element count, flush passes exactly [header, data, sync] (shared with C15)",
+    "level_text": "Deductive proof of the block layout only: for every element count 1..=i64::MAX and buffer length the block header is spec long(count) ++ spec long(byte length) "
+                  "(never overrunning its 20-byte buffer), and from any well-formed writer state a flush hands the sink exactly [header, data, the header's sync marker]; "
+                  "the vectored write delivering those three slices unchanged is C16's contract.",
+    "level_note": "File header (magic, metadata map with avro.schema / avro.codec / user metadata) is NOT under contract (serde flatten + serde_json); codec framing is external (C05); "
+                  "reading files produced by other writers is covered only through the block-reader step contracts of C03; no second implementation is consulted. Null codec. A1 A4 A8 A9.",
+    "assumptions": [A1, A4, A7, A8, A9],
+    "explanation": "Obligations shared with C15: c15_block_header_all_counts (complete), c15_finish_block_step, c15_serialize_ok_step, c15_push_serialized_step.",
+    "not_decided": ["file header layout and metadata map", "codec names and codec framing (snappy CRC, raw deflate)", "interoperability with apache-avro (a second implementation is a different family)",
+                    "metadata order / extra keys on the read side"],
 }
 
 NOT_APPLICABLE = [
+    {"property_id": "C13", "reason": "attempted and withdrawn: contracts on the real record serializer (serialize_record_value / end / Drop over every presentation of a 3-field record) do not finish under CBMC - not even a single concrete out-of-order presentation in 600 s (heap manipulation of the pooled Vec<Option<Vec<u8>>>); the name->index lookup (field_idx) is HashMap-based and would have been assumed anyway; Verus accepts neither the serde traits nor the closures involved. Attempted contracts are kept in contracts/kani/_attic_record.rs"},
+    {"property_id": "C14", "reason": "depends on the same record-serializer contracts as C13 (pool invariant after every history + probe equality), which do not finish under CBMC; a syntactic scan of the sites touching the pools would not be a deductive check"},
+    {"property_id": "C19", "reason": "attempted and withdrawn: the real canonical-form traversal over a heap-allocated node vector does not finish under CBMC even for the concrete one-node graph (node kinds read back from the heap are not constant-folded, the recursion is unwound ~10 call sites per level); text parsing is serde_json. The defect this property exposes (F4: stack overflow on unnamed cycles) was found by running the real crate and is fixed in /repo (3ef4cc7)"},
     {"property_id": "C10", "reason": "contract-based verification decides properties of one call; this property quantifies over API histories, drop orders and thread interleavings, and Kani has no threads. The one sub-claim with a function boundary - the unsafe constructor Schema::try_from on bounded graphs - needs canonical_form/serialize_to_json stubbed and unions/records excluded (their construction hashes) and was not built; every other harness dereferences NodeRefs under Kani's pointer checks, which is supporting evidence only"},
     {"property_id": "C05", "reason": "quantifies over external compression libraries (miniz_oxide via flate2; bzip2/xz/zstd/snappy are FFI or not compiled by the pinned default-feature build): no contract within reach of Kani/Verus can state inflate(deflate(x)) == x, and assuming it leaves nothing of the property to decide; the repository-side framing obligations are discharged under C06/C15/C17 for the null codec"},
     {"property_id": "C07", "reason": "the behaviour lives in one 200-line recursive function over a serde_json-deserialized AST with a HashMap name table and inline string rules: no function boundary to put a contract on without rewriting it (a model), CBMC does not get through serde_json or HashMap (measured), Verus accepts neither serde-derived types nor str reasoning"},
